@@ -119,20 +119,20 @@ Proof.
 Qed.
 
 (** frameSubChunksSize is the number of bytes written for ALPH + bitstream *)
-Lemma sub_chunks_size_correct alpha bits : olen alpha < 2147483648 -> len bits < 2147483648 ->
+Lemma sub_chunks_size_correct alpha bits : olen alpha < 1073741824 -> len bits < 1073741824 ->
   len ((match alpha with Some a => write_data_chunk FCC_ALPH a | None => [] end) ++
        write_data_chunk (detect_type bits) bits) = sub_chunks_size alpha bits.
 Proof.
-  intros Ha Hb. rewrite len_app, (chunk_total_correct _ bits Hb).
+  intros Ha Hb. rewrite len_app, (chunk_total_correct _ bits ltac:(lia)).
   unfold sub_chunks_size. pose proof (len_nonneg bits).
-  assert (Hct : forall p, 0 <= p < 2147483648 -> 0 <= chunk_total (u32 p) < 2147483648 + 16).
+  assert (Hct : forall p, 0 <= p < 1073741824 -> 0 <= chunk_total (u32 p) < 1073741824 + 16).
   { intros p Hp. unfold chunk_total, u32, ChunkHeaderSize. rewrite (Z.mod_small p 4294967296) by lia.
     destruct (negb (p mod 2 =? 0)); lia. }
   destruct alpha as [a|]; cbn [olen] in Ha.
-  - rewrite (chunk_total_correct _ a Ha). pose proof (len_nonneg a).
-    pose proof (Hct (len a)). pose proof (Hct (len bits)).
+  - rewrite (chunk_total_correct _ a ltac:(lia)). pose proof (len_nonneg a).
+    pose proof (Hct (len a) ltac:(lia)). pose proof (Hct (len bits) ltac:(lia)).
     set (x := chunk_total (u32 (len a))) in *. set (y := chunk_total (u32 (len bits))) in *. unfold u32. lia.
-  - rewrite len_nil. pose proof (Hct (len bits)).
+  - change (len (@nil Z)) with 0. pose proof (Hct (len bits) ltac:(lia)).
     set (y := chunk_total (u32 (len bits))) in *. unfold u32. lia.
 Qed.
 
@@ -172,18 +172,21 @@ Proof.
     - pose proof (len_nonneg a). cbn [olen] in Ha. rewrite (chunk_total_correct _ a ltac:(lia)).
       unfold chunk_total, u32, ChunkHeaderSize. rewrite (Z.mod_small (len a) 4294967296) by lia.
       destruct (negb (len a mod 2 =? 0)), (negb (len bits mod 2 =? 0)); lia.
-    - rewrite len_nil. destruct (negb (len bits mod 2 =? 0)); lia. }
+    - change (len (@nil Z)) with 0. destruct (negb (len bits mod 2 =? 0)); lia. }
   unfold ANMFChunkSize, ChunkHeaderSize, u32.
   rewrite (Z.mod_small (16 + sub_chunks_size alpha bits)) by lia.
   rewrite Hsub in Heven.
   assert (Hp : negb ((16 + sub_chunks_size alpha bits) mod 2 =? 0) = false).
   { destruct (Z.eqb_spec ((16 + sub_chunks_size alpha bits) mod 2) 0); [reflexivity|lia]. }
   rewrite Hp.
-  rewrite !len_app, !len_le32. rewrite <- len_app, Hsub.
-  assert (Hd6 : len (if (fw >? 0) && (fh >? 0) then le24 (fw - 1) ++ le24 (fh - 1) else [0; 0; 0; 0; 0; 0]) = 6)
-    by (destruct ((fw >? 0) && (fh >? 0)); reflexivity).
-  rewrite Hd6. change (len (le24 _)) with 3. rewrite len_app.
-  change (len (le24 _)) with 3. rewrite len_nil. rewrite len_cons, len_nil.
+  rewrite app_nil_r.
+  set (tail := wr ++ write_data_chunk (detect_type bits) bits) in *.
+  set (dims := if (fw >? 0) && (fh >? 0) then le24 (fw - 1) ++ le24 (fh - 1) else [0; 0; 0; 0; 0; 0]).
+  assert (Hd6 : len dims = 6) by (unfold dims; destruct ((fw >? 0) && (fh >? 0)); reflexivity).
+  rewrite !len_app, !len_le32, Hd6, Hsub.
+  change (len (le24 (o_ox (f_opts f) ÷ 2))) with 3. change (len (le24 (o_oy (f_opts f) ÷ 2))) with 3.
+  change (len (le24 (o_dur (f_opts f)))) with 3.
+  rewrite len_cons. change (len (@nil Z)) with 0.
   split; lia.
 Qed.
 
@@ -264,6 +267,48 @@ Lemma le32_tag (a b c d : Z) : is_byte a -> is_byte b -> is_byte c -> is_byte d 
   le32 (a + 256 * b + 65536 * c + 16777216 * d) = [a; b; c; d].
 Proof. unfold is_byte, le32. intros. repeat f_equal; lia. Qed.
 
+(** the specification accepts the simple layout as the muxer writes it *)
+Lemma wf_simple t0 t1 t2 t3 p :
+  ([t0; t1; t2; t3] = T_VP8 /\ vp8_header p <> None) \/ ([t0; t1; t2; t3] = T_VP8L /\ vp8l_header p <> None) ->
+  bytes_ok p -> len p < 2147483648 ->
+  wf (T_RIFF ++ le32 (12 + len p + len p mod 2) ++ T_WEBP ++
+      [t0; t1; t2; t3] ++ le32 (len p) ++ p ++ pad_of (len p)) = true.
+Proof.
+  intros Htag Hb Hl. pose proof (len_nonneg p) as H0.
+  set (body := [t0; t1; t2; t3] ++ le32 (len p) ++ p ++ pad_of (len p)).
+  set (n := 12 + len p + len p mod 2).
+  assert (Hn : 0 <= n < 4294967296) by (unfold n; lia).
+  change (T_RIFF ++ le32 n ++ T_WEBP ++ body) with
+    (82 :: 73 :: 70 :: 70 :: n mod 256 :: (n / 256) mod 256 :: (n / 65536) mod 256 :: (n / 16777216) mod 256 ::
+     87 :: 69 :: 66 :: 80 :: body).
+  unfold wf. cbv beta iota.
+  change (bytes_eqb [82; 73; 70; 70] T_RIFF) with true.
+  change (bytes_eqb [87; 69; 66; 80] T_WEBP) with true.
+  cbn [andb].
+  assert (Hrd : rd32 [n mod 256; (n / 256) mod 256; (n / 65536) mod 256; (n / 16777216) mod 256] = n)
+    by (unfold rd32; lia).
+  assert (Hbl : glen body = 8 + len p + len p mod 2).
+  { unfold glen. fold (len body). unfold body. rewrite !len_app, len_pad_of, len_le32.
+    rewrite !len_cons. change (len (@nil Z)) with 0. lia. }
+  rewrite Hrd, Hbl.
+  replace (n =? 4 + (8 + len p + len p mod 2)) with true by (unfold n; lia).
+  cbn [andb].
+  assert (Htb : bytes_ok [t0; t1; t2; t3]).
+  { destruct Htag as [[-> _]|[-> _]]; repeat constructor; unfold is_byte; lia. }
+  match goal with |- (forallb ?f ?l && _) = true => assert (Hfa : forallb f l = true) end.
+  { apply forallb_bytes. repeat (constructor; [unfold is_byte; lia|]).
+    unfold body. repeat (apply bytes_ok_app; split); auto using le32_bytes, bytes_ok_pad. }
+  rewrite Hfa. cbn [andb].
+  unfold body. rewrite chunks_one; auto.
+  2:{ rewrite !app_length. cbn. lia. }
+  destruct Htag as [[-> Hh]|[-> Hh]].
+  - change (bytes_eqb T_VP8 T_VP8X) with false. change (bytes_eqb T_VP8 T_VP8) with true. cbv iota.
+    destruct (vp8_header p); [reflexivity|congruence].
+  - change (bytes_eqb T_VP8L T_VP8X) with false. change (bytes_eqb T_VP8L T_VP8) with false.
+    change (bytes_eqb T_VP8L T_VP8L) with true. cbv iota.
+    destruct (vp8l_header p); [reflexivity|congruence].
+Qed.
+
 (** Simple layout, any variant: a single frame without options that need VP8X,
     whose data is a VP8 key frame or VP8L bitstream, assembles to a well-formed
     file that demuxes back to that bitstream and its dimensions. *)
@@ -273,11 +318,14 @@ Theorem simple_layout_roundtrip fx dfx data fo m :
   bytes_ok data -> len data < 2147483648 ->
   frame_parts data = Some (None, data) ->
   (is_some' (vp8_header data) || is_some' (vp8l_header data)) = true ->
-  exists bs d, assemble fx m = Ok bs /\ wf bs = true /\ parse dfx bs = Ok d /\
-    d_frames d = [mkfi (Some data) None (fst (frame_dims data)) (snd (frame_dims data)) 0 0 0 true
-                       (fi_hasalpha (hd (mkfi None None 0 0 0 0 0 false false 0 0) (d_frames d))) 0 0] /\
-    d_icc d = None /\ d_exif d = None /\ d_xmp d = None /\ d_loop d = 0 /\ d_bg d = 0 /\
-    ft_anim (d_feat d) = false /\ (ft_w (d_feat d), ft_h (d_feat d)) = frame_dims data.
+  exists bs, assemble fx m = Ok bs /\ wf bs = true /\
+    match parse dfx bs with
+    | Ok d =>
+      (exists ha, d_frames d = [mkfi (Some data) None (fst (frame_dims data)) (snd (frame_dims data)) 0 0 0 true ha 0 0]) /\
+      d_icc d = None /\ d_exif d = None /\ d_xmp d = None /\ d_loop d = 0 /\ d_bg d = 0 /\
+      ft_anim (d_feat d) = false /\ (ft_w (d_feat d), ft_h (d_feat d)) = frame_dims data
+    | _ => False
+    end.
 Proof.
   intros Hfr Hnv Hval Hb Hl Hparts Hhdr.
   pose proof (len_nonneg data) as H0.
@@ -303,54 +351,16 @@ Proof.
         unfold VP8LMagicByte in E. destruct (Z.eqb_spec b0 47); [lia|]. reflexivity. }
       rewrite Hl0 in *. rewrite orb_false_r in Hhdr.
       destruct (vp8_header (b0 :: tl)) as [[w h]|]; [eauto|discriminate]. }
-  eexists. eexists. split; [reflexivity|].
+  eexists. split; [reflexivity|].
   (* well-formedness *)
-  assert (Hwf_and_parse : forall t0 t1 t2 t3, is_byte t0 -> is_byte t1 -> is_byte t2 -> is_byte t3 ->
-            detect_type data = t0 + 256 * t1 + 65536 * t2 + 16777216 * t3 ->
-            le32 (detect_type data) = [t0; t1; t2; t3]).
-  { intros. rewrite H3. apply le32_tag; auto. }
   split.
-  { destruct Htag as [[Ht (w & h & a & Hh)]|[Ht (w & h & Hh & Hn)]]; rewrite Ht.
-    - change (le32 FCC_VP8L) with T_VP8L. change (le32 FCC_RIFF) with T_RIFF. change (le32 FCC_WEBP) with T_WEBP.
-      unfold T_RIFF, T_WEBP. cbn [app]. unfold wf.
-      cbn [bytes_eqb Z.eqb Pos.eqb andb].
-      set (body := T_VP8L ++ le32 (len data) ++ data ++ pad_of (len data)).
-      assert (Hbl : glen body = 8 + len data + len data mod 2).
-      { unfold glen. fold (len body). unfold body. rewrite !len_app, len_pad_of. change (len T_VP8L) with 4. rewrite len_le32. lia. }
-      assert (Hrd : rd32 (le32 (4 + 8 + padded)) = 4 + 8 + padded).
-      { rewrite <- (app_nil_r (le32 _)). apply rd32_le32. lia. }
-      unfold le32 at 1 in Hrd. unfold le32 at 1. cbn [app].
-      rewrite Hrd, Hbl, Hpadded.
-      replace (4 + 8 + (len data + len data mod 2) =? 4 + (8 + len data + len data mod 2)) with true by lia.
-      cbn [andb].
-      match goal with |- (forallb ?f ?l && _) = true => assert (Hfa : forallb f l = true) end.
-      { apply forallb_bytes. repeat (constructor; [unfold is_byte; lia|]).
-        unfold body. repeat (apply bytes_ok_app; split); auto using le32_bytes, bytes_ok_pad.
-        unfold T_VP8L. repeat constructor; unfold is_byte; lia. }
-      rewrite Hfa. cbn [andb].
-      unfold body, T_VP8L. rewrite chunks_one; auto.
-      2:{ rewrite !app_length. cbn. lia. }
-      cbn [bytes_eqb Z.eqb Pos.eqb andb]. rewrite Hh. reflexivity.
-    - change (le32 FCC_VP8) with T_VP8. change (le32 FCC_RIFF) with T_RIFF. change (le32 FCC_WEBP) with T_WEBP.
-      unfold T_RIFF, T_WEBP. cbn [app]. unfold wf.
-      cbn [bytes_eqb Z.eqb Pos.eqb andb].
-      set (body := T_VP8 ++ le32 (len data) ++ data ++ pad_of (len data)).
-      assert (Hbl : glen body = 8 + len data + len data mod 2).
-      { unfold glen. fold (len body). unfold body. rewrite !len_app, len_pad_of. change (len T_VP8) with 4. rewrite len_le32. lia. }
-      assert (Hrd : rd32 (le32 (4 + 8 + padded)) = 4 + 8 + padded).
-      { rewrite <- (app_nil_r (le32 _)). apply rd32_le32. lia. }
-      unfold le32 at 1 in Hrd. unfold le32 at 1. cbn [app].
-      rewrite Hrd, Hbl, Hpadded.
-      replace (4 + 8 + (len data + len data mod 2) =? 4 + (8 + len data + len data mod 2)) with true by lia.
-      cbn [andb].
-      match goal with |- (forallb ?f ?l && _) = true => assert (Hfa : forallb f l = true) end.
-      { apply forallb_bytes. repeat (constructor; [unfold is_byte; lia|]).
-        unfold body. repeat (apply bytes_ok_app; split); auto using le32_bytes, bytes_ok_pad.
-        unfold T_VP8. repeat constructor; unfold is_byte; lia. }
-      rewrite Hfa. cbn [andb].
-      unfold body, T_VP8. rewrite chunks_one; auto.
-      2:{ rewrite !app_length. cbn. lia. }
-      cbn [bytes_eqb Z.eqb Pos.eqb andb]. rewrite Hh. reflexivity. }
+  { replace (4 + 8 + padded) with (12 + len data + len data mod 2) by lia.
+    change (le32 FCC_RIFF) with T_RIFF. change (le32 FCC_WEBP) with T_WEBP.
+    destruct Htag as [[Ht (w & h & a & Hh)]|[Ht (w & h & Hh & Hn)]]; rewrite Ht.
+    - change (le32 FCC_VP8L) with [86; 80; 56; 76]. apply wf_simple; auto.
+      right. split; [reflexivity|congruence].
+    - change (le32 FCC_VP8) with [86; 80; 56; 32]. apply wf_simple; auto.
+      left. split; [reflexivity|congruence]. }
   (* demuxing *)
   set (chunkbytes := le32 (detect_type data) ++ le32 (len data) ++ data ++ pad_of (len data)).
   assert (Hcb : chunkbytes = write_data_chunk (detect_type data) data).
@@ -428,8 +438,8 @@ Proof.
       destruct (Z.geb_spec (1 + (1 + (1 + (1 + (1 + len tl))))) 5); [|lia].
       unfold VP8LMagicByte. rewrite Z.eqb_refl. reflexivity. }
     destruct Hdims as [Hpd Hfd]. rewrite Hpd. cbn [bind].
-    eexists. cbn [d_frames d_icc d_exif d_xmp d_loop d_bg d_feat ft_anim ft_w ft_h hd fi_hasalpha].
-    rewrite Hfd. cbn [fst snd]. repeat split; reflexivity.
+    cbv iota. cbn [d_frames d_icc d_exif d_xmp d_loop d_bg d_feat ft_anim ft_w ft_h].
+    rewrite Hfd. cbn [fst snd]. repeat split; try reflexivity. eexists. reflexivity.
   - (* VP8 *)
     change (FCC_VP8 =? FCC_VP8X) with false. rewrite Z.eqb_refl.
     unfold parse_simple_vp8. rewrite Hrc. cbn [bind c_data].
@@ -438,7 +448,7 @@ Proof.
       destruct data as [|t0 [|t1 [|t2 [|b3 [|b4 [|b5 [|b6 [|b7 [|b8 [|b9 tl]]]]]]]]]]; try discriminate.
       match type of Hh with (if ?c then _ else _) = _ => destruct c eqn:E; [|discriminate] end.
       injection Hh as <- <-.
-      repeat (apply andb_true_iff in E; let E' := fresh "E" in destruct E as [E E']).
+      rewrite !andb_true_iff in E. destruct E as (((((E & E3) & E4) & E5) & Ew) & Eh).
       apply Z.eqb_eq in E3, E4, E5. subst b3 b4 b5.
       assert (Hp : parse_vp8_dims (t0 :: t1 :: t2 :: 157 :: 1 :: 42 :: b6 :: b7 :: b8 :: b9 :: tl) =
                    Ok ((b6 + 256 * b7) mod 16384, (b8 + 256 * b9) mod 16384)).
@@ -461,6 +471,6 @@ Proof.
       { apply Z.eqb_neq. intros ->. unfold VP8LMagicByte in E. cbn in E. discriminate. }
       rewrite Ht0. reflexivity. }
     destruct Hdims as [Hpd Hfd]. rewrite Hpd. cbn [bind].
-    eexists. cbn [d_frames d_icc d_exif d_xmp d_loop d_bg d_feat ft_anim ft_w ft_h hd fi_hasalpha].
-    rewrite Hfd. cbn [fst snd]. repeat split; reflexivity.
+    cbv iota. cbn [d_frames d_icc d_exif d_xmp d_loop d_bg d_feat ft_anim ft_w ft_h].
+    rewrite Hfd. cbn [fst snd]. repeat split; try reflexivity. eexists. reflexivity.
 Qed.
